@@ -165,6 +165,16 @@ def run_boot(ctx, method):
         ok_d, by_default = ctx.guarded('default_grouping', sig, boot_noise_ceiling, dup, method=method, data=wit)
         ok_e, by_index = ctx.guarded('default_grouping', sig, boot_noise_ceiling, dup, method=method,
                                      rdm_descriptor='index', data=wit)
+        # ... and the grouping is by the VALUES of that descriptor, whatever it is called: the same values under another
+        # name give the same ceilings
+        dup.rdm_descriptors['orig'] = [int(v) for v in dup.rdm_descriptors['index']]
+        ok_o, by_other = ctx.guarded('default_grouping', sig, boot_noise_ceiling, dup, method=method,
+                                     rdm_descriptor='orig', data=wit)
+        if ok_e and ok_o and not close(np.array(by_index, dtype=float), np.array(by_other, dtype=float), 1e-12, 1e-14):
+            ctx.fail('default_grouping', dict(sig, what='index_not_grouped_by_value'), f'ceilings grouped by index '
+                     f'{tuple(map(float, by_index))} != ceilings grouped by a descriptor holding the same values '
+                     f'{tuple(map(float, by_other))} (values {sel})', wit(selection=sel))
+            return
         if ok_d and ok_e:
             ctx.case('default_grouping', sig)
             if not close(np.array(by_default, dtype=float), np.array(by_index, dtype=float), 1e-12, 1e-14):
